@@ -88,7 +88,10 @@ func runC04(e *Env) {
 	if ujo := e.Fn("C04.reader", "size", "unmarshalJSONObject"); ujo != nil {
 		e.FlowAs(map[string]string{"C12.count": "C04.reader"}, func(c *flow.Ctx) { c.RuleCounterSlack(ujo, "MaxObjectKeys") })
 	}
-	e.S.Floor("C04.reader", 19)
+	// … and the member loop reads the two members as written: the arms, the duplicate tests, the loop discipline (no
+	// foreign test, no rewriting of a decoded member) and the skipper (C12.keys)
+	e.As(map[string]string{"C12.keys": "C04.reader"}, func() { ruleC12Arms(e) })
+	e.S.Floor("C04.reader", 23)
 }
 
 // segs flattens an abstract byte-sequence value built by append / strconv.AppendUint into readable segments.
@@ -458,6 +461,7 @@ func ruleKeys(e *Env, rule string, strict bool) {
 		}
 	}
 	cmp := map[string]bool{}
+	preparedKey := ""
 	lowered := true
 	normaliser, notASCII := "", ""
 	unicodeFold := false
@@ -514,6 +518,11 @@ func ruleKeys(e *Env, rule string, strict bool) {
 				}
 			case flow.InRepo(call.Call.StaticCallee()):
 				normaliser = flow.FnName(call.Call.StaticCallee())
+				if len(call.Call.Args) == 1 {
+					if inner, isCall := call.Call.Args[0].(*ssa.Call); isCall {
+						preparedKey = "passed through " + inner.Call.String()
+					}
+				}
 				if ok, why := asciiLowerOnly(e, flow.Origin(call.Call.StaticCallee()), max(len(kv), len(ku))); !ok {
 					lowered = false
 					notASCII = why
@@ -523,6 +532,16 @@ func ruleKeys(e *Env, rule string, strict bool) {
 			}
 			cmp[s] = true
 		}
+	}
+	// no other constant is taken for a member, and the normaliser is applied to the key as read (not to a trimmed or
+	// otherwise prepared copy: " unit " is not the unit member)
+	for k := range cmp {
+		if k != kv && k != ku {
+			e.S.Bad(rule, site, "case "+quote(k), "the reader also compares the key with "+quote(k)+", which is not a marshal key: another member name is taken for value or unit", e.Pos(rd), "")
+		}
+	}
+	if preparedKey != "" {
+		e.S.Bad(rule, site, "key as read", "the key is "+preparedKey+" before it is normalised: keys are case-insensitive, not otherwise equivalent", e.Pos(rd), `{"value":1," unit ":"KiB"}`)
 	}
 	for _, k := range []string{kv, ku} {
 		if cmp[k] {
